@@ -25,8 +25,8 @@ CLAIMED["C20"] = dict(
     ref="§3 C20")
 
 CLAIMED["C14"] = dict(
-    technique="static analysis: may-reachability over MIR CFGs (Poll::Pending without a registered waker), finite evaluation of the extracted ring-buffer index expressions (helper calls inlined) against the modular reference, avoid-reachability pairing of state changes with wake calls, guard-polarity dominance checks, who-may-write census of cursor fields with expression-shape extraction",
-    text="For every poll function of the send/receive buffers: Pending is never returned on a path that did not register the waker (lost wake-up), each side parks in and wakes the right waker slot, every buffer state change that can unblock the other side reaches the corresponding wake on all paths (can_write sampled before take, close wakes the reader, a completed write wakes index i+1, a consumed message calls wake_next), next_op returns Pending only if the waker was accepted and advances `next` only after a ready operation, and the cursors/woken_at are written only by their owner operation with the documented wrap/max expressions; the ring arithmetic of the send buffer (len, remaining, inc, range, mask, wrap), evaluated from the extracted expressions for every capacity up to 10 and every cursor pair, equals the modular reference, take()/write() move exactly the bytes they advance over and split a wrapped read correctly; the sender's waker shards stay sorted and add/wake agree on the shard; the receiver's waker ring is used exactly for the records of its window, one slot each; the receive side's message reassembly slices every byte exactly once. Decides waker and cursor discipline, not byte-exact queue equivalence or deadlock freedom over all schedules.",
+    technique="static analysis: may-reachability over MIR CFGs (Poll::Pending without a registered waker), finite evaluation of the extracted ring-buffer index expressions (helper calls inlined) against the modular reference, avoid-reachability pairing of state changes with wake calls, control-dependence and finite evaluation of the overflow-drain cadence, guard-polarity dominance checks, who-may-write census of cursor fields with expression-shape extraction",
+    text="For every poll function of the send/receive buffers: Pending is never returned on a path that did not register the waker (lost wake-up), each side parks in and wakes the right waker slot, every buffer state change that can unblock the other side reaches the corresponding wake on all paths (can_write sampled before take, close wakes the reader, a completed write wakes index i+1, a consumed message calls wake_next), next_op returns Pending only if the waker was accepted and advances `next` only after a ready operation, and the cursors/woken_at are written only by their owner operation with the documented wrap/max expressions; the ring arithmetic of the send buffer (len, remaining, inc, range, mask, wrap), evaluated from the extracted expressions for every capacity up to 10 and every cursor pair, equals the modular reference, take()/write() move exactly the bytes they advance over and split a wrapped read correctly; the sender's waker shards stay sorted and add/wake agree on the shard; the receiver's waker ring is used exactly for the records of its window, one slot each; a request further ahead than the window keeps its own entry on the overflow list (append, or refresh of the entry with the same index; both feature siblings), the list is drained at cursor positions that depend on the cursor and ring size only and meet every window, and a drain wakes every entry; the receive side's message reassembly slices every byte exactly once. Decides waker and cursor discipline, not byte-exact queue equivalence or deadlock freedom over all schedules.",
     ref="§3 C14")
 
 CLAIMED["C15"] = dict(
@@ -104,7 +104,7 @@ CLAIMED["C07"] = dict(
 
 CLAIMED["C01"] = dict(
     technique="static analysis: variant-arm evaluation of the pair-grouping transition table, call-shape and def-use checks of the grouping map, operand/field wiring of the two pair sums, dominator-ordered must-pass-through of the pipeline stages with await settlement and data-flow between stages, collective-participation rule (no Ok return that bypasses a cross-shard stage)",
-    text="Decides only the structural clauses of the statement: a match key contributes iff it occurs exactly twice (MatchEntry Single->Pair->MoreThanTwo table, into_pair only for Pair); pairs are formed in an ordered map keyed by the report's own match key; a pair's breakdown key and value are the sums of the fields of the same name of its two reports under distinct steps with the pair index as record id; hybrid_protocol runs pad, shuffle, PRF+reshard, pair aggregation, breakdown reveal, finalize in that order, each awaited, error-propagated and fed by its predecessor; the cross-shard merge of histograms is the saturating addition; every shard takes part in every cross-shard stage (one known finding: early return on empty local input); the PRF stage evaluates the PRF of each row's own match key under a key shared by all shards, keeps value / breakdown key next to it and routes by the PRF value alone; a partial chunk is never labelled as holding zero rows. The numerical equality of the histogram with the plaintext reference over all inputs, saturation arithmetic and DP noise are NOT decided.",
+    text="Decides only the structural clauses of the statement: a match key contributes iff it occurs exactly twice (MatchEntry Single->Pair->MoreThanTwo table, into_pair only for Pair); pairs are formed in an ordered map keyed by the report's own match key; a pair's breakdown key and value are the sums of the fields of the same name of its two reports under distinct steps with the pair index as record id; hybrid_protocol runs pad, shuffle, PRF+reshard, pair aggregation, breakdown reveal, finalize in that order, each awaited, error-propagated and fed by its predecessor; the cross-shard merge of histograms is the saturating addition; every shard takes part in every cross-shard stage whatever it holds itself (hybrid_protocol, breakdown reveal, the resharding after the PRF, every step of the sharded shuffle: no non-error return is reachable without the cross-shard call); the PRF stage evaluates the PRF of each row's own match key under a key shared by all shards, keeps value / breakdown key next to it and routes by the PRF value alone; a partial chunk is never labelled as holding zero rows. The numerical equality of the histogram with the plaintext reference over all inputs, saturation arithmetic and DP noise are NOT decided.",
     ref="§3 C01")
 
 NOT_APPLICABLE = {
